@@ -428,6 +428,7 @@ def c09(run):
         sched_runs(run, h, ("cache", "cacheof"), "ticks", ("NONLIN", "PREFILL"), quick=(150, 6))
         # the default TTL is replaced while calls that use it are in flight
         sched_runs(run, h, ("cache", "cacheof"), "settings", ("EXPIRY",), quick=(150, 6), lin=False)
+        sched_runs(run, h, ("cache", "cacheof"), "knobs", ("NONLIN",), quick=(100, 6))
         trace_cache_runs(run, h, quick=(40, 4), focuses=("", "lazy"))
         if run.tier != "quick":
             # deeper tiers: writers racing resizes as well (re-armed instants must survive a table copy)
